@@ -258,6 +258,22 @@ func (r *rwRT) ruleTmplYieldFrom() {
 				if err == nil && countLeaf(o.St, o.Ret[0], "arg0") != 1 {
 					err = fmt.Errorf("the delegate expression occurs %d times (must be evaluated exactly once)", countLeaf(o.St, o.Ret[0], "arg0"))
 				}
+				if err == nil {
+					// the synthetic Yield must be made known to the type info as *the* Yield function,
+					// otherwise the generator pass does not see the loop as yielding and the stub is called
+					fun := calleeBase(o.St, o.Ret[0])
+					registered := false
+					for _, e := range o.St.Events {
+						if e.Kind == "call" && e.Fn != nil && e.Fn.Name() == "UpdateUses" && len(e.Args) == 3 {
+							if sameAV(unwrap(e.Args[1]), unwrap(fun)) && strings.Contains(argLabel(e.Args[2]), "yieldFunc") {
+								registered = true
+							}
+						}
+					}
+					if !registered {
+						err = fmt.Errorf("the callee of the generated Yield call is not registered as the API's Yield function (UpdateUses on the very callee node): the generator pass will not recognise the loop body as a yield and the value is dropped")
+					}
+				}
 				if err != nil && firstErr == nil {
 					firstErr = err
 					shown = o.St.Render(o.Ret[0])
@@ -634,4 +650,34 @@ func (r *rwRT) rulePass0() {
 		nilRet = nil
 	}
 	r.account(d.in)
+}
+
+// calleeBase: the callee node (identifier or selector, below any instantiation) of the single
+// call statement in the body of a generated range statement.
+func calleeBase(st *State, rng AV) AV {
+	ro := st.Obj(unwrap(rng))
+	if ro == nil {
+		return nil
+	}
+	bo := st.Obj(unwrap(ro.Fields["Body"]))
+	if bo == nil {
+		return nil
+	}
+	l, _ := bo.Fields["List"].(SliceV)
+	if len(l.Elems) != 1 {
+		return nil
+	}
+	es := st.Obj(unwrap(l.Elems[0]))
+	if es == nil {
+		return nil
+	}
+	call := st.Obj(unwrap(es.Fields["X"]))
+	if call == nil {
+		return nil
+	}
+	fun := call.Fields["Fun"]
+	if fo := st.Obj(unwrap(fun)); fo != nil && typeName(fo.T) == "IndexExpr" {
+		fun = fo.Fields["X"]
+	}
+	return fun
 }
